@@ -104,6 +104,9 @@ func runExcerpt(c exCase, variant string) (obs exObs) {
 				ls[i] = fmt.Sprintf("ctx%d", i+1)
 			}
 		}
+		if variant == "crlf" {
+			return strings.Join(ls, "\r\n") + "\r\n", ls
+		}
 		return strings.Join(ls, "\n") + "\n", ls
 	}
 	parsed, plines := mk(parsedLines)
@@ -204,7 +207,7 @@ func runExcerpt(c exCase, variant string) (obs exObs) {
 
 func excerptReplay(args []string) int {
 	fs := flag.NewFlagSet("excerpt-replay", flag.ExitOnError)
-	variants := fs.String("variants", "ascii,tabs,utf8", "line content variants")
+	variants := fs.String("variants", "ascii,tabs,utf8,crlf", "line content variants (crlf: ascii content, CRLF line endings)")
 	one := fs.String("replay", "", "replay one case from a JSON file")
 	_ = fs.Parse(args)
 	vs := strings.Split(*variants, ",")
